@@ -4,7 +4,7 @@
    sdk/go/manifest (firstBlock + scan) and of sdk/python/arvados/_ranges.py; [nonempty] drops zero-length segments. *)
 From Coq Require Import NArith List String Ascii Bool.
 From AV Require Import lib.Str model.C10_manifest model.C10_ranges model.C10_fs model.C10_gomanifest model.C10_python
-  lib.Md5 proofs.C10_witness proofs.C10_ranges_proofs proofs.C10_escape_proofs proofs.C10_bytes_proofs proofs.C10_pdh_proofs proofs.C10_gm_proofs model.C10_run proofs.C10_run_proofs.
+  lib.Md5 proofs.C10_witness proofs.C10_ranges_proofs proofs.C10_escape_proofs proofs.C10_bytes_proofs proofs.C10_pdh_proofs proofs.C10_gm_proofs model.C10_run proofs.C10_run_proofs proofs.C10_reject_proofs.
 Import ListNotations.
 Local Open Scope N_scope.
 
@@ -165,3 +165,27 @@ Theorem C10_fs_check_case_is_model_plus_spec : forall c,
   FS.check_case c = ((if FS.model_b c then 0 else 1) + (if FS.spec_b c then 0 else 2))%N.
 Proof. exact fs_check_case_eq. Qed.
 Print Assumptions C10_fs_check_case_is_model_plus_spec.
+
+(* ---- malformed_rejected, collection filesystem loader, for EVERY input string: a text that is not structurally
+        well-formed (trailing newline; per line a name, >= 1 locators with numeric size, >= 1 file tokens with numeric
+        position and size; every non-empty segment inside its stream) yields an error and no tree at all.  (Refuted
+        by finding F15 until commit 44931b6.) ---- *)
+Theorem C10_malformed_rejected_fs : forall txt, wf_manifest txt = false -> fs_load txt = None.
+Proof. exact malformed_rejected_fs. Qed.
+Print Assumptions C10_malformed_rejected_fs.
+
+(* wf_manifest is neither always true nor always false *)
+Theorem C10_wf_manifest_examples :
+  wf_manifest (". 930625b054ce894ac40596c3f5a0d947+33 0:0:a 0:0:b 0:33:output.txt" ++ s_nl)%string = true /\
+  wf_manifest (". 930625b054ce894ac40596c3f5a0d947+33 0:34:output.txt" ++ s_nl)%string = false /\
+  wf_manifest ". 930625b054ce894ac40596c3f5a0d947+33 0:33:output.txt"%string = false.
+Proof. repeat split; vm_compute; reflexivity. Qed.
+Print Assumptions C10_wf_manifest_examples.
+
+(* ---- malformed_rejected, Go manifest package, for EVERY input string: whenever Extract returns a text (no error),
+        every non-blank line of the input is structurally well-formed; i.e. a malformed line makes Extract return an
+        error (or, for block sizes summing to >= 2^63, lies outside the model) ---- *)
+Theorem C10_malformed_rejected_gomanifest : forall txt src reloc out,
+  gm_extract txt src reloc = Ok out -> forallb wf_line (gm_lines txt) = true.
+Proof. exact gm_extract_wf. Qed.
+Print Assumptions C10_malformed_rejected_gomanifest.
